@@ -14,13 +14,28 @@ package tree
 //@      && 0 <= position && position <= n && n+1 <= maxU
 //@      && soff(tree.tree) == 0 && tokenIndex <= len(tree.tree)
 //@      && maxToken.begin <= maxToken.end && maxToken.end <= n
+//@      && MemoInv(memoization, maxToken, sbase(tree.tree), alloc)
+
+// MemoInv: every memo entry records the verdict of its rule at its offset; a matched entry owns a private
+// copy of exactly the tokens of that derivation, ending with the rule's own token; and re-running the
+// attempt cannot move the furthest-token register any more (MX(..., maxToken) == maxToken).
+//@ pred memoGood(k memoKey, v memo, mt token, tb int, al int) = 0 <= k.Position && k.Position <= n && 0 <= k.Rule
+//@      && v.Matched == OK(RULEOF(k.Rule), k.Position) && MX(RULEOF(k.Rule), k.Position, mt) == mt
+//@      && imp(v.Matched, soff(v.Partial) == 0 && len(v.Partial) >= 1 && sbase(v.Partial) != tb && 0 < sbase(v.Partial) && sbase(v.Partial) < al
+//@           && seg2(elems(v.Partial), 0, len(v.Partial)) == TOKS(RULEOF(k.Rule), k.Position)
+//@           && v.Partial[len(v.Partial) - 1] == mk(token, RULEOF(k.Rule), k.Position, END(RULEOF(k.Rule), k.Position))
+//@           && k.Position <= END(RULEOF(k.Rule), k.Position) && END(RULEOF(k.Rule), k.Position) <= n)
+//@ defpred MemoInv(m int, mt token, tb int, al int) reads MapDom.DT_memoKey!DT_memo, MapVal.DT_memoKey!DT_memo, Elems.DT_token =
+//@      m != nil && forall(k + memoKey, imp(mapHasIn("DT_memoKey!DT_memo", m, k), memoGood(k, mapGetIn("DT_memoKey!DT_memo", m, k, memo), mt, tb, al)))
 
 //@ closure Init.add
+//@   uses memo
 //@   requires RT() && begin <= position
 //@   ensures  RT() && position == old(position) && tokenIndex == old(tokenIndex) + 1
 //@   ensures  live() == snoc(old(live()), mk(token, rule, begin, position))
 //@   ensures  forall(j, imp(j <= old(tokenIndex), absAt(j) == old(absAt(j))))
 //@   ensures  maxToken == upd(old(maxToken), mk(token, rule, begin, position))
+//@   ensures  tree.tree[tokenIndex - 1] == mk(token, rule, begin, position)
 //@   modifies var tokenIndex, tree, maxToken
 //@   modifies Elems.DT_token at b where true
 
@@ -30,21 +45,33 @@ package tree
 //@   modifies var position
 
 //@ closure Init.memoize
-//@   requires RT()
+//@   requires[C06] RT() && 0 <= rule && 0 <= begin && begin <= n && tokenIndexStart <= tokenIndex
+//@   requires[C06] matched == OK(RULEOF(rule), begin) && MX(RULEOF(rule), begin, maxToken) == maxToken
+//@   requires[C06] imp(matched, position == END(RULEOF(rule), begin) && begin <= position && tokenIndex > tokenIndexStart
+//@                 && live() == APP(RULEOF(rule), begin, absAt(tokenIndexStart))
+//@                 && tree.tree[tokenIndex - 1] == mk(token, RULEOF(rule), begin, position))
+//@   requires splitT(elems(tree.tree), tokenIndexStart, tokenIndex - tokenIndexStart)
 //@   ensures  RT()
-//@   modifies MapDom.DT_memoKey!DT_memo, MapVal.DT_memoKey!DT_memo at b where true
+//@   uses memo, tabs
+//@   modifies MapDom.DT_memoKey!DT_memo, MapVal.DT_memoKey!DT_memo at b where b == memoization
 //@   modifies Elems.DT_token at b where false
 
 //@ closure Init.memoizedResult
-//@   requires RT()
-//@   ensures  RT()
+//@   ghostargs r, kid
+//@   requires[C06] RT() && 0 <= kid && RULEOF(kid) == r && mapHas(memoization, mk(memoKey, kid, position)) && m == mapGet(memoization, mk(memoKey, kid, position))
 //@   ensures  result == OK(r, old(position))
 //@   ensures  imp(result, position == END(r, old(position)) && old(position) <= position)
 //@   ensures  imp(!result, position == old(position) && tokenIndex == old(tokenIndex))
-//@   ensures  imp(result, live() == APP(r, old(position), old(live())) && tokenIndex >= old(tokenIndex))
+//@   ensures  imp(result, tokenIndex == old(tokenIndex) + len(m.Partial) && soff(tree.tree) == 0 && tokenIndex <= len(tree.tree))
 //@   ensures  forall(j, imp(j <= old(tokenIndex), absAt(j) == old(absAt(j))))
-//@   ensures  maxToken == MX(r, old(position), old(maxToken))
+//@   ensures  splitT(elems(tree.tree), old(tokenIndex), len(m.Partial))
+//@   ensures  imp(result, seg2(elems(tree.tree), old(tokenIndex), len(m.Partial)) == seg2(elems(m.Partial), 0, len(m.Partial)))
+//@   ensures  imp(result, live() == cat(old(live()), seg2(elems(m.Partial), 0, len(m.Partial))))
+//@   ensures  imp(result, live() == APP(r, old(position), old(live())) && tokenIndex >= old(tokenIndex))
+//@   ensures[C11] maxToken == MX(r, old(position), old(maxToken))
 //@   ensures  imp(AS(r), result)
+//@   ensures  RT()
+//@   uses memo, tabs
 //@   modifies var position, tokenIndex, tree, maxToken
 //@   modifies Elems.DT_token at b where true
 
@@ -74,12 +101,31 @@ package tree
 //@ smt[tabs!] (declare-fun tabsDiff ((Array Int DT_token) (Array Int DT_token) Int) Int)
 //@ smt[tabs!] (assert (forall ((a (Array Int DT_token)) (b (Array Int DT_token)) (j Int)) (! (or (= (tabs a j) (tabs b j)) (and (<= 0 (tabsDiff a b j)) (< (tabsDiff a b j) j) (not (= (select a (tabsDiff a b j)) (select b (tabsDiff a b j)))))) :pattern ((tabs a j) (tabs b j)))))
 
+// Memo theory (trusted): three facts about the specification table (each an induction over its rows) and
+// four facts about finite lists.
+//   APPEND  APP(r,p,a) == cat(a, TOKS(r,p))                 the tokens of a derivation do not depend on what precedes them
+//   ABSORB  MX(r,p,m) == m && m2.end >= m.end ==> MX(r,p,m2) == m2
+//   FIX     MX(r,p,m) == m && OK(r,p) ==> !(p != END(r,p) && END(r,p) > m.end)
+//   SPLIT   tabs(a, k+m) == cat(tabs(a,k), seg2(a,k,m))     (k, m >= 0; instantiated where splitT marks)
+//   CATINJ  cat(a,s) == cat(a,s2) ==> s == s2
+//   SEGEXT  (forall d in [0,m): a[i+d] == b[j+d]) ==> seg2(a,i,m) == seg2(b,j,m)
+//@ smt[memo!] (assert (forall ((r Int) (p Int) (a TSeq)) (! (= (APP r p a) (cat a (TOKS r p))) :pattern ((APP r p a)))))
+//@ smt[memo!] (assert (forall ((r Int) (p Int) (m DT_token) (m2 DT_token)) (! (=> (and (= (MX r p m) m) (>= (token_end m2) (token_end m))) (= (MX r p m2) m2)) :pattern ((MX r p m) (MX r p m2)))))
+//@ smt[memo!] (assert (forall ((r Int) (p Int) (m DT_token)) (! (=> (and (= (MX r p m) m) (OK r p)) (not (and (not (= p (END r p))) (> (END r p) (token_end m))))) :pattern ((MX r p m) (END r p)))))
+//@ smt[memo!] (assert (forall ((a (Array Int DT_token)) (k Int) (m Int)) (! (and (splitT a k m) (=> (and (>= k 0) (>= m 0)) (= (tabs a (+ k m)) (cat (tabs a k) (seg2 a k m))))) :pattern ((splitT a k m)))))
+//@ smt[memo!] (assert (forall ((a TSeq) (s TSeg) (s2 TSeg)) (! (=> (= (cat a s) (cat a s2)) (= s s2)) :pattern ((cat a s) (cat a s2)))))
+//@ smt[memo!] (declare-fun segDiff ((Array Int DT_token) (Array Int DT_token) Int Int Int) Int)
+//@ smt[memo!] (assert (forall ((a (Array Int DT_token)) (b (Array Int DT_token)) (i Int) (j Int) (m Int)) (! (or (= (seg2 a i m) (seg2 b j m)) (and (<= 0 (segDiff a b i j m)) (< (segDiff a b i j m) m) (not (= (select a (+ i (segDiff a b i j m))) (select b (+ j (segDiff a b i j m))))))) :pattern ((seg2 a i m) (seg2 b j m)))))
+//@ specfunc splitT(a tokarr, k int, m int) bool
+
 //@ func tokens.Add
 //@   uses tabs
 //@   requires soff(t.tree) == 0 && 0 <= index && index <= len(t.tree)
 //@   ensures  soff(t.tree) == 0 && len(t.tree) >= index + 1 && len(t.tree) >= old(len(t.tree))
 //@   ensures  tabs(elems(t.tree), index + 1) == snoc(old(tabs(elems(t.tree), index)), mk(token, rule, begin, end))
 //@   ensures  forall(j, imp(j <= index, tabs(elems(t.tree), j) == old(tabs(elems(t.tree), j))))
+//@   ensures  t.tree[index] == mk(token, rule, begin, end)
+//@   ensures  sbase(t.tree) == old(sbase(t.tree)) || fresh(sbase(t.tree))
 //@   modifies Elems.DT_token at b where b == sbase(t.tree)
 
 //@ func tokens.Trim
